@@ -62,6 +62,34 @@ func setupProcess(nsites int, racelog string) {
 	}
 }
 
+// loadSyncSites reads the instrumenter's site table and remembers the yield
+// sites that sit right before / after a synchronisation operation of the code
+// under test (there are none on a tree that uses no sync primitive).
+func loadSyncSites(path string) {
+	syncSites = map[uint32]bool{}
+	if path == "" {
+		return
+	}
+	b, err := os.ReadFile(path)
+	if err != nil {
+		return
+	}
+	var t struct {
+		Sites []struct {
+			ID   uint32 `json:"id"`
+			Kind string `json:"kind"`
+		} `json:"sites"`
+	}
+	if json.Unmarshal(b, &t) != nil {
+		return
+	}
+	for _, s := range t.Sites {
+		if strings.HasPrefix(s.Kind, "sync") {
+			syncSites[s.ID] = true
+		}
+	}
+}
+
 func findPhase(prop, name string) *phaseDef {
 	for _, p := range phasesFor(prop) {
 		if p.Name == name {
@@ -87,8 +115,10 @@ func workerMain(args []string) {
 	racelog := fs.String("racelog", "", "")
 	variant := fs.String("variant", "", "")
 	tier := fs.String("tier", "quick", "")
+	sitefile := fs.String("sitefile", "", "")
 	fs.Parse(args)
 	setupProcess(*nsites, *racelog)
+	loadSyncSites(*sitefile)
 	tierThorough = *tier == "thorough"
 	ph := findPhase(*prop, *phase)
 	if ph == nil {
